@@ -37,7 +37,7 @@ ASSUMPTIONS = [
     "mounts files without NUL bytes for the exact comparison (a NUL makes glibc's getmntent drop the rest of the line and the next line); NUL/garbage files are still fed under the no-crash oracle",
 ]
 MANIFEST = {
-    "level_text": "PARTIAL. Machine-checked Lean 4 theorems over a byte-level MODEL of the extension's decoders and bounds logic: C17_users_fields_cut (users() over every utmp file = the USER_PROCESS records with user/terminal/host cut at the first NUL or at the field width, ':0'/':0.0' as localhost, start time, PID) and C17_users_read_in_record (every string read stays inside the 384-byte record) for the size-bounded decode, both DISPROVED for the unbounded PyUnicode_DecodeFSDefault decode by the full-width record (lead L14: 341-char name; the code as found, fixed in /repo by a15d2eb); C17_filesystems_parse + C17_partitions_filter (+ _kept_iff, _all); C17_strncpy_terminated; C17_mac_fits; C17_affinity_no_overflow (loop never multiplies past INT_MAX and terminates, any kernel answers); C17_cpuset_in_bounds / C17_affinity_set_in_bounds (CPU_SET on any C long); C17_pid_range; C17_ioprio_no_overflow, C17_ioprio_entry_defined, C17_ioprio_reach (no ioclass reaches an undefined shift once a range check exists; counterexample ionice(2**18, 0) without it, lead L15, fixed in /repo by f6216f8); C17_iff_table / C17_iff_flag_names / C17_iff_documented. Which variant the source uses is re-extracted on every run (regex over users.c, proc.c, _psutil_common.h, _psutil_posix.c; ast over _pslinux.py) and feeds the proof obligations ucfg_good … icfg_safe. Memory safety of the COMPILED C is NOT proved: it is supported by a differential run of the real extension in sub-processes — crafted utmp files via utmpname(), crafted mounts/filesystems files, a sched_getaffinity EINVAL shim, exhaustive ioprio/pid edge grids and an argument fuzzer over every entry point — compared with the model's decoding, where a crash, hang or sanitizer report is a violation; the thorough tier repeats it on a clang -fsanitize=address,undefined build. That part is testing. EXTENSION ROUND (Model/C17Ext.lean, 22 more theorems): C17_ifaddrs_rows (net_if_addrs over every getifaddrs() list honouring libc's object contract = getifaddrs(3)'s reading: broadcast iff IFF_BROADCAST, ptp iff IFF_POINTOPOINT and not broadcast, NULL / unshowable addresses dropped) and C17_ifaddrs_reads_in_object; C17_ifr_name_bounded (the NIC name reaches ifr_name[IFNAMSIZ] cut to 15 bytes and terminated, for the four ifreq entry points) and C17_ifr_running; C17_mntent_line_whole (every mounts line of up to 4095 bytes reaches the field decoder whole when the getmntent buffer in effect is >= 4096; the 1024-byte getmntent_r buffer of seeded change C17-1 is the proved counterexample) and C17_mntent_tuple (the render->decode round trip of the fields, C17_mntent_roundtrip_Full, is PROVED in round 2); C17_sysinfo_tuple (every Py_BuildValue unit of linux_sysinfo matches the width of its struct sysinfo member: no truncation for any value); C17_getpriority_errno_independent (with errno cleared before getpriority(2) the result is the kernel's answer for EVERY errno value on entry; counterexample without the reset = seeded C18-1) plus the obligation that no other Linux entry point uses errno as a discriminator. These are tied to the real code by an LD_PRELOAD shim that scripts getifaddrs(), the SIOCGIF*/SIOCETHTOOL ioctls (logging the ifr_name bytes each call carried) and sysinfo(), by nice values set on a sacrificial child, and by a stale errno poisoned into the thread's errno before every fuzzed call. ROUND 2 (Model/C17Py.lean, 24 more theorems): C17_mntent_roundtrip (render -> getmntent decode is the identity for EVERY mount entry, the escaped characters space/tab/newline/backslash included) and C17_mac_text (the sprintf/ptr loop as transcribed yields xx:xx:...:xx, two lower-case hex digits per byte, 3n-1 characters, for every address of up to 255 bytes) are now proved instead of tested; the decode SHAPE of users.c is a total translator fact (the text of the expression behind each string slot, every call touching ut_user/ut_line/ut_host, char locals) with the obligation ushape_good, so that any decoding other than PyUnicode_DecodeFSDefaultAndSize(ut->F, strnlen(ut->F, sizeof(ut->F))) stops the build (seeded C17-2), and C17_users_fields_cut_shape is the users() theorem for exactly that shape; the Python-side wrappers are modelled and proved: C17_rootfs_strategies_agree / C17_rootfs_find (RootFsDeviceFinder: on every tree in which /proc/partitions, /sys/dev/block/M:m/uevent and /sys/class/block/*/dev show the same devices the three strategies give the same answer, and find() returns the root device's /dev path iff it exists), C17_netifstats_rows (net_if_stats() for every list of NICs and every success/errno combination of the three ioctls: ENODEV NICs left out, other errors raised, isup = IFF_RUNNING, documented duplex, 32-bit speed, mtu, comma-joined flag names; an undefined duplex byte gives KeyError - stated as the code's behaviour), C17_netifaddrs_mac_padding and C17_netifaddrs_grouping (psutil.net_if_addrs(): per NIC its rows, stable sort by family, AF_LINK text completed to 6 groups). Each is driven on the REAL code path: RootFsDeviceFinder over scripted /proc + /sys trees (glob order scripted), psutil.net_if_stats() over a scripted /proc/net/dev with per-NIC, per-ioctl scripted answers, psutil.net_if_addrs() over scripted getifaddrs() lists.",
+    "level_text": "PARTIAL. Machine-checked Lean 4 theorems over a byte-level MODEL of the extension's decoders and bounds logic: C17_users_fields_cut (users() over every utmp file = the USER_PROCESS records with user/terminal/host cut at the first NUL or at the field width, ':0'/':0.0' as localhost, start time, PID) and C17_users_read_in_record (every string read stays inside the 384-byte record) for the size-bounded decode, both DISPROVED for the unbounded PyUnicode_DecodeFSDefault decode by the full-width record (lead L14: 341-char name; the code as found, fixed in /repo by a15d2eb); C17_filesystems_parse + C17_partitions_filter (+ _kept_iff, _all); C17_strncpy_terminated; C17_mac_fits; C17_affinity_no_overflow (loop never multiplies past INT_MAX and terminates, any kernel answers); C17_cpuset_in_bounds / C17_affinity_set_in_bounds (CPU_SET on any C long); C17_pid_range; C17_ioprio_no_overflow, C17_ioprio_entry_defined, C17_ioprio_reach (no ioclass reaches an undefined shift once a range check exists; counterexample ionice(2**18, 0) without it, lead L15, fixed in /repo by f6216f8); C17_iff_table / C17_iff_flag_names / C17_iff_documented. Which variant the source uses is re-extracted on every run (regex over users.c, proc.c, _psutil_common.h, _psutil_posix.c; ast over _pslinux.py) and feeds the proof obligations ucfg_good … icfg_safe. Memory safety of the COMPILED C is NOT proved: it is supported by a differential run of the real extension in sub-processes — crafted utmp files via utmpname(), crafted mounts/filesystems files, a sched_getaffinity EINVAL shim, exhaustive ioprio/pid edge grids and an argument fuzzer over every entry point — compared with the model's decoding, where a crash, hang or sanitizer report is a violation; the thorough tier repeats it on a clang -fsanitize=address,undefined build. That part is testing. EXTENSION ROUND (Model/C17Ext.lean, 22 more theorems): C17_ifaddrs_rows (net_if_addrs over every getifaddrs() list honouring libc's object contract = getifaddrs(3)'s reading: broadcast iff IFF_BROADCAST, ptp iff IFF_POINTOPOINT and not broadcast, NULL / unshowable addresses dropped) and C17_ifaddrs_reads_in_object; C17_ifr_name_bounded (the NIC name reaches ifr_name[IFNAMSIZ] cut to 15 bytes and terminated, for the four ifreq entry points) and C17_ifr_running; C17_mntent_line_whole (every mounts line of up to 4095 bytes reaches the field decoder whole when the getmntent buffer in effect is >= 4096; the 1024-byte getmntent_r buffer of seeded change C17-1 is the proved counterexample) and C17_mntent_tuple (the render->decode round trip of the fields, C17_mntent_roundtrip_Full, is PROVED in round 2); C17_sysinfo_tuple (every Py_BuildValue unit of linux_sysinfo matches the width of its struct sysinfo member: no truncation for any value); C17_getpriority_errno_independent (with errno cleared before getpriority(2) the result is the kernel's answer for EVERY errno value on entry; counterexample without the reset = seeded C18-1) plus the obligation that no other Linux entry point uses errno as a discriminator. These are tied to the real code by an LD_PRELOAD shim that scripts getifaddrs(), the SIOCGIF*/SIOCETHTOOL ioctls (logging the ifr_name bytes each call carried) and sysinfo(), by nice values set on a sacrificial child, and by a stale errno poisoned into the thread's errno before every fuzzed call. ROUND 2 (Model/C17Py.lean, 30 more theorems; incl. C17_ioprio_applied_is_passed: the ioprio word handed to the kernel is built from the ints the caller passed, with the format units of EVERY PyArg_ParseTuple call pinned by parse_formats_good - counterexample for the unchecked unit I = seeded C17-3): C17_mntent_roundtrip (render -> getmntent decode is the identity for EVERY mount entry, the escaped characters space/tab/newline/backslash included) and C17_mac_text (the sprintf/ptr loop as transcribed yields xx:xx:...:xx, two lower-case hex digits per byte, 3n-1 characters, for every address of up to 255 bytes) are now proved instead of tested; the decode SHAPE of users.c is a total translator fact (the text of the expression behind each string slot, every call touching ut_user/ut_line/ut_host, char locals) with the obligation ushape_good, so that any decoding other than PyUnicode_DecodeFSDefaultAndSize(ut->F, strnlen(ut->F, sizeof(ut->F))) stops the build (seeded C17-2), and C17_users_fields_cut_shape is the users() theorem for exactly that shape; the Python-side wrappers are modelled and proved: C17_rootfs_strategies_agree / C17_rootfs_find (RootFsDeviceFinder: on every tree in which /proc/partitions, /sys/dev/block/M:m/uevent and /sys/class/block/*/dev show the same devices the three strategies give the same answer, and find() returns the root device's /dev path iff it exists), C17_netifstats_rows (net_if_stats() for every list of NICs and every success/errno combination of the three ioctls: ENODEV NICs left out, other errors raised, isup = IFF_RUNNING, documented duplex, 32-bit speed, mtu, comma-joined flag names; an undefined duplex byte gives KeyError - stated as the code's behaviour), C17_netifaddrs_mac_padding and C17_netifaddrs_grouping (psutil.net_if_addrs(): per NIC its rows, stable sort by family, AF_LINK text completed to 6 groups). Each is driven on the REAL code path: RootFsDeviceFinder over scripted /proc + /sys trees (glob order scripted), psutil.net_if_stats() over a scripted /proc/net/dev with per-NIC, per-ioctl scripted answers, psutil.net_if_addrs() over scripted getifaddrs() lists.",
     "level_note": "Trusted: Lean kernel + {propext, Classical.choice, Quot.sound}; regex/ast translator; glibc/CPython semantics re-implemented in the harness (getmntent decoding, PyArg format units); the struct utmp layout; sanitizer coverage is only as good as the inputs explored. net_if_addrs()/net_if_stats() vs /sys/class/net and socket.if_nameindex() on the live interfaces is a supporting check (the sandbox has 4 NICs). Extension round: getnameinfo's numeric text is an oracle of the model (independent rendering in the harness); socket struct sizes and C type widths are ABI tables in the translator; libc's getmntent line buffer (4096) is MEASURED by a probe at translation time; the getifaddrs shim replaces the kernel, so libc's allocation contract for the sockaddr objects (Spec.SockWF) is an assumption.",
     "technique": "Lean 4 proofs over byte-level decoder/bounds models + translator-fed proof obligations + sub-process differential testing of the compiled extension (ASan+UBSan in the thorough tier)",
     "design_ref": "DESIGN.md §5 C17",
@@ -78,12 +78,18 @@ def entry_formats(snap):
     return out
 
 
-INTLIKE = {"int", "bool", "idx", "intsub", "pid"}
+INTLIKE = {"int", "bool", "idx", "intsub", "pid", "pidplus"}
+# PyArg_ParseTuple integer units: (lo, hi) of the CHECKED converters, (None, None) for the unchecked ones
+INT_UNITS = {"i": (-2**31, 2**31 - 1), "l": (-2**63, 2**63 - 1), "L": (-2**63, 2**63 - 1), "n": (-2**63, 2**63 - 1),
+             "h": (-2**15, 2**15 - 1), "b": (0, 255),
+             "I": (None, None), "k": (None, None), "K": (None, None), "H": (None, None), "B": (None, None)}
 
 
 def arg_int(a):
     if a["t"] == "bool":
         return 1 if a["v"] else 0
+    if a["t"] == "pidplus":
+        return {"child": 1000, "nopid": 4194304 + 77}[a["v"]] + int(a["k"])
     if a["t"] == "pid":
         return {"child": 1000, "self": 1000, "zero": 0, "nopid": 4194304 + 77}[a["v"]]   # magnitude class only
     return int(a["v"])
@@ -97,12 +103,13 @@ def predict_parse(fmt, args):
     if len(args) != len(units):
         return "TypeError"
     for u, a in zip(units, args):
-        if u == "i":
+        if u in INT_UNITS:
             if a["t"] not in INTLIKE:
                 return "TypeError"
             v = arg_int(a)
-            if v > 2**31 - 1 or v < -2**31:
-                return "OverflowError"
+            lo, hi = INT_UNITS[u]
+            if lo is not None and (v > hi or v < lo):
+                return "OverflowError"         # checked converters only; B H I k K reduce the value silently
         elif u == "s":
             if a["t"] != "str":
                 return "TypeError"
@@ -342,6 +349,20 @@ def compare_call(run, call, pred, lean):
     res.case(("call", repr(call)), nontrivial=True)
     if rep.get("kind") == "bad-arg":
         raise InfraError("C17 worker could not build argument: %r" % rep)
+    # every integer parameter of the Linux extension is a pid_t / C int: a Python int outside that range must end in an
+    # exception — a call that RETURNS for such an argument has silently reduced it (unchecked converter)
+    fmt_units = call.get("units")
+    if fmt_units and got == "value" and len(fmt_units) == len(call["args"]):
+        for k, (u, a) in enumerate(zip(fmt_units, call["args"])):
+            if u in INT_UNITS and a["t"] in ("int", "idx", "intsub", "pidplus") and not (-2**31 <= arg_int(a) <= 2**31 - 1):
+                res.disagree("spec", inp, rep, lean["model"] if lean else None,
+                             {"kind": "exc", "exc": "OverflowError", "why": "argument %d = %s is outside the C int range" % (k, arg_int(a))},
+                             note="%s(%s): integer argument %d is outside the range of its C type, yet the call returned: the value was silently "
+                                  "reduced (format unit %r) and applied%s" % (
+                                      fn, ", ".join(str(x.get("v")) for x in call["args"]), k, u,
+                                      "; kernel state read back: ioprio (class, data) = %r" % (rep.get("ioprio"),) if "ioprio" in rep else
+                                      ("; nice read back = %r" % (rep.get("nice"),) if "nice" in rep else "")))
+                return
     if pred is not None:
         if got != pred:
             res.disagree("model", inp, rep, {"kind": "exc", "exc": pred}, {"kind": "value-or-python-exception"},
@@ -350,6 +371,12 @@ def compare_call(run, call, pred, lean):
     if lean is None:
         return
     mo = lean["model"]
+    sp = lean.get("spec") or {}
+    if isinstance(sp, dict) and sp.get("applied_is_passed") is False:
+        res.disagree("spec", inp, rep, mo, {"applied_is_passed": True},
+                     note="model of the current source: %s hands the kernel a class/data pair that is NOT the pair the caller passed (the Python int is "
+                          "reduced modulo 2**32 by an unchecked format unit and then passes the range check); kernel state read back: %r" % (fn, rep.get("ioprio")))
+        return
     if mo.get("kind") == "ub":
         res.disagree("spec", inp, rep, mo, {"kind": "value-or-python-exception, no undefined behaviour"},
                      note="model of the current source: this call evaluates a signed left shift whose result is not representable in int (undefined behaviour; UBSan reports it)")
@@ -368,6 +395,12 @@ def compare_call(run, call, pred, lean):
     if mo.get("kind") == "syscall":
         if got not in ("value", "OSError"):
             res.disagree("model", inp, rep, mo, None, note="%s: expected a value or OSError after a successful parse" % fn)
+        elif got == "value" and isinstance(rep.get("ioprio"), list) and call["args"][0].get("v") == "child":
+            cls = mo["packed"] >> 13
+            if cls in (1, 2, 3) and rep["ioprio"][0] != cls:
+                res.disagree("model", inp, rep, mo, None, note="%s returned, but the I/O class read back from the kernel is not the class the model packed" % fn)
+            else:
+                res.count("fuzz:ioprio_readback")
         return
     if mo.get("kind") == "mask":
         first = call["args"][0]
@@ -471,6 +504,19 @@ def one_build(ctx, res, run, fmts, first):
             pl = part_lines(c, dec)
             mi = add(X.mnt_line_for(c["mounts"])) if len(c["mounts"]) <= MNT_MODEL_MAX else None
             todo.append(("part", (c, dec), (add(pl[0]), add(pl[1]), mi)))
+    eps = run.ask({"cmd": "entrypoints"}, {"kind": "entrypoints"}) or {}
+    names = [(m, f) for m in ("linux", "posix") for f in eps.get(m, [])]
+    res.extra["entry_points"] = ["%s.%s" % x for x in names]
+    unknown = [x for x in names if x not in fmts]
+    if unknown:
+        res.notes.append("entry points without a recognised PyArg_ParseTuple format (fuzzed under the no-crash oracle only): %s" % unknown)
+    # wrap-around family: for every integer parameter of every entry point, values congruent modulo 2**32 / 2**64 to valid and
+    # boundary values, and the powers of two ± 1; outcome compared with the model, kernel state read back and restored
+    for call in G.wrap_calls(names, fmts):
+        m, f = call["mod"], call["fn"]
+        fmt = fmts.get((m, f))
+        ll = lean_for_call(call, fmt)
+        todo.append(("call_fuzz", (call, fmt), add(ll) if ll is not None and "_pred" not in ll else None))
     # ---------------------------------------------------------------- grids (exhaustive)
     cls, val, pid = grids()
     child = {"t": "pid", "v": "child"}
@@ -478,7 +524,8 @@ def one_build(ctx, res, run, fmts, first):
         for v in val:
             todo.append(("ionice", (c, v), add({"op": "ionice_py", "cls": c, "value": v})))
             if v is not None:
-                call = {"mod": "linux", "fn": "proc_ioprio_set", "args": [child, G.a_int(c), G.a_int(v)], "post": "ioprio"}
+                call = {"mod": "linux", "fn": "proc_ioprio_set", "args": [child, G.a_int(c), G.a_int(v)], "post": "ioprio",
+                        "units": fmts.get(("linux", "proc_ioprio_set"))}
                 todo.append(("call", call, add({"op": "ioprio_ext", "pid": 1000, "cls": c, "data": v})))
     for p in pid:
         call = {"mod": "linux", "fn": "check_pid_range", "args": [G.a_int(p)]}
@@ -532,18 +579,14 @@ def one_build(ctx, res, run, fmts, first):
         c = X.gen_ifaddrs_case(rng, X.IF_FAMILIES[i % len(X.IF_FAMILIES)])
         todo.append(("netifaddrs_front", c, add(Y.netifaddrs_line(c))))
     # ---------------------------------------------------------------- argument fuzzer
-    eps = run.ask({"cmd": "entrypoints"}, {"kind": "entrypoints"}) or {}
-    names = [(m, f) for m in ("linux", "posix") for f in eps.get(m, [])]
-    res.extra["entry_points"] = ["%s.%s" % x for x in names]
-    unknown = [x for x in names if x not in fmts]
-    if unknown:
-        res.notes.append("entry points without a recognised PyArg_ParseTuple format (fuzzed under the no-crash oracle only): %s" % unknown)
     n_f = ctx.n(6000, 40000) if first else ctx.n(6000, 25000)
     for i in range(n_f):
         m, f = names[i % len(names)]
         fmt = fmts.get((m, f))
         call = G.gen_call(rng, m, f, fmt if fmt is not None else "*")
         call["errno"] = rng.choice(X.ERRNOS)          # stale errno poisoned in right before the call
+        if fmt not in (None, "*"):
+            call["units"] = fmt
         ll = lean_for_call(call, fmt) if fmt is not None else None
         if ll is not None and "_pred" in ll:
             todo.append(("call_pred", (call, fmt, ll["_pred"]), None))
